@@ -252,7 +252,7 @@ func runC13(k int, rng *Rng) CaseResult {
 	clockNewCase(clockModeFor(cfg))
 	installHooks(stdHooks())
 	w := NewWorld("C13", rng, cfg, caseDir(k, "c13"))
-	w.storeWant = true
+	w.storeWant = false
 	defer w.Cleanup()
 	if !w.OpenCreate() {
 		return w.finish(nil, false, nil)
